@@ -157,7 +157,10 @@ func c19EMS(c *Ctx) {
 	// session used EMS, hello does not carry the extension
 	reach, used, unknown := feasibleReach(fn, atom, []bool{true, false})
 	for _, o := range offers {
+		sessionFlagConsulted := an.Contains(fn.Body, func(n ast.Node) bool { return an.FieldSel(info, n, "SessionState", "extMasterSecret") })
 		switch {
+		case len(unknown) > 0 && reach[o.P] && !sessionFlagConsulted:
+			r.Bad("C19.1", "loadSession:ems-ticket-offer", c.Pos(unknown[0]), "the check before the ticket offer (%s) never consults the cached session's extMasterSecret: a session negotiated with extended_master_secret is still offered in a ClientHello without the extension (RFC 7627 5.3)", an.Str(unknown[0]))
 		case len(unknown) > 0:
 			r.Unknown("C19.1", "loadSession:ems-ticket-offer", c.Pos(unknown[0]), "a condition mentions the EMS flags in a form that is not recognised: %s", an.Str(unknown[0]))
 		case reach[o.P] && used == 0:
